@@ -261,7 +261,17 @@ def c07_liveness(results, violations, known):
         else:
             wd = vlib.scratch("live-%s-%d" % (cfgname, os.getpid()))
             t0 = time.time()
-            rc, txt = vlib.tlc("RolloutsImplGraph.tla", "RolloutsImplGraph.cfg", wd, env={"VERIF_STATES": prefix + ".states", "VERIF_TRANS": prefix + ".trans"},
+            nstates = sum(1 for _ in open(prefix + ".states"))
+            outs = {}
+            for line in open(prefix + ".trans"):
+                t = json.loads(line)
+                if not t["fault"]:
+                    outs.setdefault(t["pre"], []).append({"a": t["base"], "p": t["post"]})
+            adj = os.path.join(wd, "adj.ndjson")
+            with open(adj, "w") as f:
+                for i in range(1, nstates + 1):
+                    f.write(json.dumps({"id": i, "out": outs.get(i, [])}) + "\n")
+            rc, txt = vlib.tlc("RolloutsImplGraph.tla", "RolloutsImplGraph.cfg", wd, env={"VERIF_STATES": prefix + ".states", "VERIF_ADJ": adj},
                                workers=4, timeout=3000, heap="10g")
             shutil.rmtree(wd, ignore_errors=True)
             m = re.search(r"(\d+) states generated, (\d+) distinct states found", txt)
